@@ -23,7 +23,7 @@ theorem floor_toNat_natCast (n : Nat) : ((n : Rat)).floor.toNat = n := by
 structure WalkDecompWithin (inp : WalkInput) (walk : Nat → List Node) (w : Nat → Rat) : Prop where
   /-- walks of the augmented graph from the synthetic source to the synthetic sink -/
   isWalk : ∀ i, i < inp.k → IsWalkIn inp.st.g (inp.st.source :: walk i ++ [inp.st.sink])
-  /-- every walk respects the repetition caps (own flow value inside an SCC, 1 outside) -/
+  /-- every walk respects the repetition caps (floor of the own flow value inside an SCC, 1 outside) -/
   withinCap : ∀ i, i < inp.k → ∀ e ∈ inp.st.g.edges,
     (traversals (inp.st.source :: walk i ++ [inp.st.sink]) e : Rat) ≤ kfdcCap inp e
   weights : ∀ i, i < inp.k → 0 ≤ w i ∧ w i ≤ inp.wmax false ∧ (inp.weightInt = true → ∃ z : Int, w i = z)
@@ -98,9 +98,11 @@ theorem mfdc_min_walks_proof (inp : WalkInput) (σ : Nat → Status) (late : Nat
 
 /-! ## integer-weighted decompositions meet the caps by themselves -/
 
-/-- every SCC edge of the augmented graph is a non-ignored edge whose cap is its own flow value -/
+/-- every SCC edge of the augmented graph is a non-ignored edge whose cap is (the floor of, since fix
+fcfd0b0) its own flow value -/
 def CapsAreFlows (inp : WalkInput) : Prop :=
-  ∀ e ∈ inp.st.g.edges, isSccEdge inp.st.g e = true → e ∈ inp.activeEdges false ∧ kfdcCap inp e = inp.f e
+  ∀ e ∈ inp.st.g.edges, isSccEdge inp.st.g e = true →
+    e ∈ inp.activeEdges false ∧ kfdcCap inp e = (((inp.f e).floor : Int) : Rat)
 
 /-- … which is the case for a plain flow instance: nothing ignored, every edge of the user's graph
 carries its flow value (the synthetic edges are never SCC edges) -/
@@ -138,7 +140,8 @@ theorem caps_are_flows (inp : WalkInput) (hb : BaseWF inp.base) (hign : inp.igno
 
 /-- **integer weights need no cap hypothesis.** `k` walks of the augmented graph with weights that are
 at least `1` (positive integers) and at most `w_max`, decomposing a flow whose values are at most
-`w_max`, on an input whose caps are the flow values: the family is within the caps. -/
+`w_max`, on an input whose caps are the (floored) flow values: the family is within the caps — a
+natural number of traversals below the flow value is below its floor. -/
 theorem within_of_int (inp : WalkInput) (walk : Nat → List Node) (w : Nat → Rat)
     (hb : BaseWF inp.base) (hcaps : CapsAreFlows inp)
     (hwalk : ∀ i, i < inp.k → IsWalkIn inp.st.g (inp.st.source :: walk i ++ [inp.st.sink]))
@@ -168,7 +171,7 @@ theorem within_of_int (inp : WalkInput) (walk : Nat → List Node) (w : Nat → 
     cases hs : isSccEdge inp.st.g e with
     | true =>
       obtain ⟨hact, hcap⟩ := hcaps e he hs
-      rw [hcap]; exact hmle i hi e hact
+      rw [hcap]; exact natCast_le_floor (hmle i hi e hact)
     | false =>
       rw [kfdcCap_eq inp e he, hs]
       exact hone i hi e he hs
